@@ -164,12 +164,54 @@ func runC26(c *core.Ctx) {
 		c.Result(first && bound, "C26.c", "DOM", "run:delete:range", c.P.Pos(delCl.Pos()), "keys are collected from the first key while key <= idx", "the delete no longer collects exactly the keys <= idx starting at the first key", nil)
 	}
 	// forward-only cursor
+	// the read cursor is the local of run whose value positions the bucket
+	// cursor: a closure of run loads it (as a captured variable) into
+	// uint64tob(...) → Cursor.Seek
 	var cell *ssa.Alloc
-	an.Instrs(run, func(in ssa.Instruction) {
-		if al, ok := in.(*ssa.Alloc); ok && al.Comment == "nextFrom" {
-			cell = al
+	var bindingOf func(fv *ssa.FreeVar) ssa.Value
+	bindingOf = func(fv *ssa.FreeVar) ssa.Value {
+		cl := fv.Parent()
+		par := cl.Parent()
+		if par == nil {
+			return nil
 		}
-	})
+		var out ssa.Value
+		for i, f := range cl.FreeVars {
+			if f != fv {
+				continue
+			}
+			an.Instrs(par, func(in ssa.Instruction) {
+				if mc, ok := in.(*ssa.MakeClosure); ok && mc.Fn == ssa.Value(cl) && i < len(mc.Bindings) {
+					out = mc.Bindings[i]
+				}
+			})
+		}
+		if inner, ok := out.(*ssa.FreeVar); ok {
+			return bindingOf(inner)
+		}
+		return out
+	}
+	for _, cl := range an.WithClosures(run) {
+		if cl == run {
+			continue
+		}
+		for _, seek := range an.CallsTo(cl, false, "go.etcd.io/bbolt.Cursor.Seek") {
+			an.Mentions(seek.Common().Args[len(seek.Common().Args)-1], func(x ssa.Value) bool {
+				u, ok := x.(*ssa.UnOp)
+				if !ok || u.Op != token.MUL {
+					return false
+				}
+				fv, ok := u.X.(*ssa.FreeVar)
+				if !ok {
+					return false
+				}
+				if al, ok := bindingOf(fv).(*ssa.Alloc); ok && al.Parent() == run {
+					cell = al
+				}
+				return false
+			})
+		}
+	}
 	if cell == nil {
 		c.Unk("C26.c", "DOM", "run:delete:cursor", c.P.Pos(run.Pos()), "the read cursor variable was not found in run")
 		return
